@@ -125,6 +125,50 @@ fn params(tier: Tier) -> (usize, usize, usize) {
     }
 }
 
+/// Programs that only queue: n messages of `size` bytes are sent before anything is received,
+/// then all are received and compared. The ideal unbounded channel accepts every send at once.
+#[derive(Clone, Debug, serde::Serialize, serde::Deserialize)]
+pub struct Capacity {
+    pub n: usize,
+    pub size: usize,
+    /// a small message sent after the n big ones (still nothing received)
+    pub then_small: bool,
+}
+
+pub fn capacity_programs() -> Vec<Capacity> {
+    let mut v = Vec::new();
+    for (n, size) in [(64usize, 100usize), (64, 1000), (64, 1600), (64, 2000), (48, 2000), (26, 4096), (11, 16384), (4, 65536), (1, 212_000), (1, 300_000)] {
+        v.push(Capacity { n, size, then_small: false });
+    }
+    v.push(Capacity { n: 1, size: 213_000, then_small: true });
+    v.push(Capacity { n: 1, size: 430_000, then_small: false });
+    v
+}
+
+fn capacity_body(c: &Capacity) -> Result<(), String> {
+    use ipc_channel::ipc;
+    let (tx, rx) = ipc::channel::<Vec<u8>>().map_err(|e| e.to_string())?;
+    for i in 0..c.n {
+        crate::exec::obs(format!("sending #{}", i));
+        tx.send(crate::common::pattern(c.size, i as u64)).map_err(|e| format!("send #{} failed: {}", i, e))?;
+    }
+    if c.then_small {
+        crate::exec::obs("sending the small one".to_string());
+        tx.send(vec![9u8; 10]).map_err(|e| format!("small send failed: {}", e))?;
+    }
+    crate::exec::obs("all sent".to_string());
+    for i in 0..c.n {
+        let d = rx.recv().map_err(|e| format!("recv #{}: {:?}", i, e))?;
+        if d != crate::common::pattern(c.size, i as u64) {
+            return Err(format!("message #{} of {} bytes arrived altered", i, c.size));
+        }
+    }
+    if c.then_small && rx.recv().map_err(|e| format!("{:?}", e))? != vec![9u8; 10] {
+        return Err("the small message arrived altered".into());
+    }
+    Ok(())
+}
+
 fn part(tier: Tier) -> (Part, Graph) {
     let mut p = Part::new();
     let (mc, depth, maxs) = params(tier);
@@ -147,10 +191,37 @@ fn part(tier: Tier) -> (Part, Graph) {
         }
     });
     n += nd;
+    // queue-only programs with larger messages (real socket buffers, one case per child)
+    let caps = capacity_programs();
+    let mut ncap = 0u64;
+    let mut cap_fails: Vec<(Capacity, String)> = Vec::new();
+    super::sweep(&caps, 60.0, &|_| Cfg { sched: true, ..Default::default() }, &capacity_body, &mut |_, c, out| {
+        ncap += 1;
+        match super::describe(out) {
+            Ok(_) => {},
+            Err(e) if e.starts_with("MACHINERY") => p.machinery.push(e),
+            Err(e) => {
+                // the one failure mode that is a recorded finding: the program's own send never returns
+                // although nothing but buffer space stands in its way
+                let sent_all = out.result.as_ref().map(|r| r.obs.iter().any(|o| o == "all sent")).unwrap_or(false);
+                let sig = if e.contains("deadlock") && e.contains("Send") && !sent_all {
+                    format!("[os-send-blocks-when-the-socket-buffer-is-full] a single-threaded program queues {} message(s) of {} bytes{} without receiving: a send never returns ({})", c.n, c.size, if c.then_small { " and a small one" } else { "" }, e)
+                } else {
+                    e
+                };
+                cap_fails.push((c.clone(), sig));
+            },
+        }
+    });
+    n += ncap;
+    for (c, e) in cap_fails {
+        p.fail(format!("{} :: capacity program {:?}", e, c), json!({"capacity": c}));
+    }
     p.evaluations = n;
     p.distinct = n;
     p.count("programs", n);
     p.count("long_queue_programs", nd);
+    p.count("queue_only_programs_with_larger_messages", ncap);
     p.sample(json!({"program": g.paths[g.paths.len() / 2]}));
     p.sample(json!({"program": g.paths[g.paths.len() - 1]}));
     for (path, e) in fails {
@@ -197,7 +268,7 @@ pub fn run(tier: Tier, part_only: bool) -> i32 {
     } else {
         rep.set("cap_note", json!("the model state graph hit its state cap before the depth bound: every state and transition found was covered on all three builds, but not every program up to that depth"));
     }
-    rep.set("rule", json!("states/transitions are those of the reference model's graph under the alphabet {new channel, new channel through a one-shot server (new, connect, send, accept), a one-shot server whose client connects and leaves without sending (accept must then report that no sender is left), clone, drop handle, send data, send data+region, embed sender, embed receiver, recv when the model defines it, try_recv, try_recv_timeout(0), add receiver to the set, drain the set while events are pending, drop the whole set with its members, drop receiver}; every transition is one program executed from scratch on each of the three builds with all results compared to the model (values, order, empty, disconnected, send failures; select results per member); long_queue_programs: besides the graph, every program of the family (q in {31,32,33,63,64} [thorough: 3..=64] messages queued on one channel) x (sender kept / dropped first) x (consumed by recv, try_recv, try_recv_timeout(0) one step past the end, or by the set added before / after the sends, alone / next to a second member, then one more message) on all three builds; programs are distinct by construction (different operation sequences) and every one counts as non-trivial (at least one operation executed on the real API with its result compared)"));
+    rep.set("rule", json!("states/transitions are those of the reference model's graph under the alphabet {new channel, new channel through a one-shot server (new, connect, send, accept), a one-shot server whose client connects and leaves without sending (accept must then report that no sender is left), clone, drop handle, send data, send data+region, embed sender, embed receiver, recv when the model defines it, try_recv, try_recv_timeout(0), add receiver to the set, drain the set while events are pending, drop the whole set with its members, drop receiver}; every transition is one program executed from scratch on each of the three builds with all results compared to the model (values, order, empty, disconnected, send failures; select results per member); long_queue_programs: besides the graph, every program of the family (q in {31,32,33,63,64} [thorough: 3..=64] messages queued on one channel) x (sender kept / dropped first) x (consumed by recv, try_recv, try_recv_timeout(0) one step past the end, or by the set added before / after the sends, alone / next to a second member, then one more message) on all three builds; queue_only_programs_with_larger_messages: 12 shapes (64 x 100 bytes ... one message of 430000 bytes) sent without receiving, then received and compared, real socket buffers, on all three builds (the OS builds block on three of them: recorded known finding); programs are distinct by construction (different operation sequences) and every one counts as non-trivial (at least one operation executed on the real API with its result compared)"));
     rep.assume("operations the statement does not list (connecting to a non-existent name, selecting on an empty set, using a moved-out receiver, a blocking call the model says would block) are not in the alphabet");
     rep.assume("agreement of the three builds is established through agreement of each with the same deterministic model on the same programs");
     rep.finish()
@@ -205,6 +276,14 @@ pub fn run(tier: Tier, part_only: bool) -> i32 {
 
 pub fn replay(v: &Value) -> i32 {
     let c = &v["case"];
+    if c.get("capacity").is_some() {
+        let Ok(cc) = serde_json::from_value::<Capacity>(c["capacity"].clone()) else { return 2 };
+        for r in 0..2 {
+            let out = crate::exec::run_one(&Cfg { sched: true, ..Default::default() }, 60.0, &|| capacity_body(&cc));
+            println!("replay round {} [{}]: {:?} -> {:?}", r, super::variant(), cc, super::describe(&out));
+        }
+        return 0;
+    }
     let mc = c["max_chans"].as_u64().unwrap_or(2) as usize;
     let Ok(p) = serde_json::from_value::<Vec<Op>>(c["program"].clone()) else { return 2 };
     let cfg = Cfg { sched: true, ..Default::default() };
